@@ -11,6 +11,7 @@ import Drv.C15
 import Drv.C16
 import Drv.C17
 import Drv.C05
+import Drv.Links
 /-! `drv <model>`: executable models behind a one-line-in, one-line-out protocol. -/
 def main (args : List String) : IO UInt32 := do
   match args with
@@ -29,4 +30,5 @@ def main (args : List String) : IO UInt32 := do
   | ["c17"] => Drv.pureLoop Drv.C17.step; return 0
   | ["c05"] => Drv.C05.main; return 0
   | ["c04"] => Drv.C05.main; return 0
+  | ["links"] => Drv.Links.main; return 0
   | _ => IO.eprintln "usage: drv <model>"; return 2
